@@ -51,6 +51,8 @@ type histB struct {
 	extra                   []int
 	known                   string
 	label                   string
+	big                     bool // large concrete fan-out base: keep symbolic probes cheap
+	noSym                   bool // no symbolic update after the base
 }
 
 func (b histB) scn() *Scenario {
@@ -97,8 +99,8 @@ func opSeqs(n int, specs []int, withDelete bool) [][][2]int {
 }
 
 // fShort: every op sequence of length n over key lengths lens, probes rotating (quick) or all (thorough).
-func fShort(kind, mask, n int, lens []int, allProbes bool, kmode int) []*Scenario {
-	var out []*Scenario
+func fShort(kind, n int, lens []int, allProbes bool) []histB {
+	var out []histB
 	specs := make([]int, len(lens))
 	for i, l := range lens {
 		specs[i] = aSpec(0, l)
@@ -106,20 +108,20 @@ func fShort(kind, mask, n int, lens []int, allProbes bool, kmode int) []*Scenari
 	for i, seq := range opSeqs(n, specs, true) {
 		if allProbes {
 			for _, ps := range specs {
-				out = append(out, histB{kind: kind, mask: mask, kmode: kmode, ops: seq, probes: []int{ps}, label: fmt.Sprintf("F-short n=%d", n)}.scn())
+				out = append(out, histB{kind: kind, ops: seq, probes: []int{ps}, label: fmt.Sprintf("F-short n=%d", n)})
 			}
 		} else {
-			out = append(out, histB{kind: kind, mask: mask, kmode: kmode, ops: seq, probes: []int{specs[i%len(specs)]}, label: fmt.Sprintf("F-short n=%d", n)}.scn())
+			out = append(out, histB{kind: kind, ops: seq, probes: []int{specs[i%len(specs)]}, label: fmt.Sprintf("F-short n=%d", n)})
 		}
 	}
 	return out
 }
 
 // fNum: numeric kinds: n symbolic ops (all Insert/Delete patterns, first is Insert), one probe.
-func fNum(kind, mask, n int) []*Scenario {
-	var out []*Scenario
+func fNum(kind, n int) []histB {
+	var out []histB
 	for _, seq := range opSeqs(n, []int{0}, true) {
-		out = append(out, histB{kind: kind, mask: mask, ops: seq, probes: []int{0}, label: fmt.Sprintf("F-num n=%d", n)}.scn())
+		out = append(out, histB{kind: kind, ops: seq, probes: []int{0}, label: fmt.Sprintf("F-num n=%d", n)})
 	}
 	return out
 }
@@ -128,25 +130,160 @@ var checkSpecs = map[string]*CheckSpec{}
 
 func register(s *CheckSpec) { checkSpecs[s.ID] = s }
 
-func init() {
-	register(&CheckSpec{
-		ID: "C01", Level: "model_checking", Summaries: true,
-		Rule: "every template (operation kinds + key lengths) of the listed families is explored exhaustively over all key bytes / key values / stored values; a state is a finished symbolic path (one equivalence class of concrete histories), a transition is one API call on it",
-		Scenarios: func(c *CheckRun) []*Scenario {
-			mask := ckMap
-			var out []*Scenario
-			if c.Tier == "quick" {
-				out = append(out, fShort(kindAlphaB, mask, 1, []int{0, 1, 2}, true, 0)...)
-				out = append(out, fShort(kindAlphaB, mask, 2, []int{0, 1, 2}, true, 0)...)
-				out = append(out, fShort(kindAlphaB, mask, 3, []int{0, 1, 2}, false, 0)...)
-				out = append(out, fShort(kindAlphaS, mask, 2, []int{0, 1, 2}, false, 0)...)
-				for _, k := range []int{kindU8, kindI64, kindF32} {
-					out = append(out, fNum(k, mask, 3)...)
+// ---------------------------------------------------------------------------------------------
+// template families
+
+func (e *Engine) constInt(name string, def int) int {
+	if c := e.pkg.Const(name); c != nil && c.Value != nil {
+		if v := c.Value.Int64(); v != 0 {
+			return int(v)
+		}
+	}
+	return def
+}
+
+// longSpecs: key shapes around a shared concrete stem of length p (see DESIGN F-long).
+func longSpecs(p int) []int {
+	out := []int{aSpec(p, 0), aSpec(p, 1), aSpec(p, 2)}
+	for _, j := range []int{0, p / 2, p - 1} {
+		out = append(out, aSpecMut(p, 1, j))
+	}
+	if p >= 2 {
+		out = append(out, aSpec(p-2, 0), aSpec(p-2, 1), aSpec(p-1, 0))
+	}
+	return out
+}
+
+// fLong: two keys stem(p)+1 build a compressed path of p bytes; then one more symbolic op and one probe.
+func fLong(kind int, stems []int, rich bool) []histB {
+	var out []histB
+	for _, p := range stems {
+		base := [][2]int{{opInsert, aSpec(p, 1)}, {opInsert, aSpec(p, 1)}}
+		specs := longSpecs(p)
+		i := 0
+		for _, k := range []int{opInsert, opDelete} {
+			for _, s3 := range specs {
+				ops := append(append([][2]int(nil), base...), [2]int{k, s3})
+				var probes []int
+				if rich {
+					probes = specs
+				} else {
+					probes = []int{specs[i%len(specs)], specs[(i+4)%len(specs)]}
+				}
+				i++
+				for _, pr := range probes {
+					out = append(out, histB{kind: kind, ops: ops, probes: []int{pr}, label: fmt.Sprintf("F-long p=%d", p)})
 				}
 			}
-			return out
-		},
-		Bounds:  []string{"see scenario list"},
-		Outside: []string{"histories longer than the templates"},
-	})
+		}
+	}
+	return out
+}
+
+func cKey1(b int) int { return 1<<24 | b<<16 }
+
+var boundaryBytes = []int{0x00, 0x01, 0x7f, 0x80, 0xfe, 0xff}
+
+// fanBytes: m distinct branch bytes: the boundary bytes first, then a seed-dependent fill.
+func fanBytes(m int, seed int64, variant int) []int {
+	used := map[int]bool{}
+	var out []int
+	for _, b := range boundaryBytes {
+		if len(out) < m {
+			out = append(out, b)
+			used[b] = true
+		}
+	}
+	x := uint64(seed)*6364136223846793005 + uint64(variant)*1442695040888963407 + 12345
+	for len(out) < m {
+		x = x*6364136223846793005 + 1442695040888963407
+		b := int(x>>33) & 0xff
+		if !used[b] {
+			used[b] = true
+			out = append(out, b)
+		}
+	}
+	// variant-dependent insertion order (rotation), so that slot orders differ between variants
+	r := variant % len(out)
+	return append(out[r:], out[:r]...)
+}
+
+// fanBase: concrete ops that build a root with m children, optionally grown to `from` first and deleted down.
+func fanBase(m, from int, seed int64, variant int) [][2]int {
+	n := m
+	if from > m {
+		n = from
+	}
+	bs := fanBytes(n, seed, variant)
+	var ops [][2]int
+	for _, b := range bs {
+		ops = append(ops, [2]int{opInsertC, cKey1(b)})
+	}
+	for i := n - 1; i >= m; i-- {
+		ops = append(ops, [2]int{opDeleteC, cKey1(bs[i])})
+	}
+	return ops
+}
+
+type fanShape struct{ m, from int }
+
+// fan shapes step through every growth and shrink threshold of the node classes.
+func fanShapes(e *Engine, full bool) []fanShape {
+	m4 := e.constInt("maxNode4", 4)
+	m16 := e.constInt("maxNode16", 16)
+	m48 := e.constInt("maxNode48", 48)
+	out := []fanShape{{2, 0}, {m4 - 1, 0}, {m4, 0}, {m16, 0}, {m48, 0}, // about to grow
+		{m4, m4 + 1}, {2, m4 + 1}, // node16 shrunk back towards node4 and further
+		{13, m16 + 1}, {12, m16 + 1}, // node48 -> node16 threshold
+		{38, m48 + 1}, {37, m48 + 1}, // node256 -> node48 threshold
+	}
+	if full {
+		out = append(out, fanShape{m4 + 1, 0}, fanShape{m16 - 1, 0}, fanShape{m16 + 1, 0}, fanShape{m48 - 1, 0}, fanShape{m48 + 1, 0}, fanShape{3, m4 + 1}, fanShape{1, m4}, fanShape{m48 + 8, 0})
+	}
+	return out
+}
+
+// fFan: concrete fan-out base, then symbolic ops over 1-byte keys and a probe.
+// Small bases (<= 17 siblings): nSym symbolic Insert/Delete patterns and a symbolic probe.
+// Big bases: (A) no symbolic update, symbolic probe; (B) one symbolic Insert, concrete probe;
+// (C) one symbolic Delete, concrete probe — a symbolic update on a 48/256-way node is already a
+// 256-way enumeration of the branch byte.
+func fFan(c *CheckRun, kind int, nSym int, variants int, full bool) []histB {
+	var out []histB
+	for _, sh := range fanShapes(c.Eng, full) {
+		for v := 0; v < variants; v++ {
+			base := fanBase(sh.m, sh.from, c.Seed, v)
+			label := fmt.Sprintf("F-fan m=%d from=%d v=%d", sh.m, sh.from, v)
+			big := sh.m > 17 || sh.from > 17
+			if big {
+				someByte := 0
+				for _, o := range base {
+					if o[0] == opInsertC {
+						someByte = o[1]
+					}
+				}
+				cp := someByte | 1<<30
+				out = append(out, histB{kind: kind, ops: base, probes: []int{aSpec(0, 1)}, label: label + " A", big: true, noSym: true})
+				out = append(out, histB{kind: kind, ops: append(append([][2]int(nil), base...), [2]int{opInsert, aSpec(0, 1)}), probes: []int{cp}, label: label + " B", big: true})
+				out = append(out, histB{kind: kind, ops: append(append([][2]int(nil), base...), [2]int{opDelete, aSpec(0, 1)}), probes: []int{cp}, label: label + " C", big: true})
+				continue
+			}
+			var pats [][][2]int
+			if nSym == 1 {
+				pats = [][][2]int{{{opInsert, aSpec(0, 1)}}, {{opDelete, aSpec(0, 1)}}}
+			} else {
+				pats = [][][2]int{
+					{{opInsert, aSpec(0, 1)}, {opInsert, aSpec(0, 1)}},
+					{{opInsert, aSpec(0, 1)}, {opDelete, aSpec(0, 1)}},
+					{{opDelete, aSpec(0, 1)}, {opDelete, aSpec(0, 1)}},
+					{{opDelete, aSpec(0, 1)}, {opInsert, aSpec(0, 1)}},
+				}
+			}
+			for _, pat := range pats {
+				ops := append(append([][2]int(nil), base...), pat...)
+				out = append(out, histB{kind: kind, ops: ops, probes: []int{aSpec(0, 1)}, label: label})
+			}
+		}
+	}
+	return out
 }
